@@ -183,6 +183,9 @@ TWINS += [
                 "        self.blueprints = blueprints\n        self.real_op_count = len([o for o in blueprints if not isinstance(o, SsbLabel)])\n"),
                ("explorerscript/macro.py", "        len_real_ops_in_blueprints = len([o for o in self.blueprints if not isinstance(o, SsbLabel)]) + 1\n",
                 "        len_real_ops_in_blueprints = self.real_op_count + 1\n")]},
+    {"id": "twin-memoised-pure-helper", "what": "exps_int (a pure function of its text) is memoised with functools.lru_cache(maxsize=None)",
+     "edits": [("explorerscript/util.py", "def exps_int(", "@functools.lru_cache(maxsize=None)\ndef exps_int("),
+               ("explorerscript/util.py", "from __future__ import annotations\n", "from __future__ import annotations\n\nimport functools\n")]},
     {"id": "twin-call-exit-selection", "what": "CallWriteHandler selects the edge after the call with a loop instead of a comprehension",
      "edits": [("explorerscript/ssb_converting/decompiler/write_handlers/label_jumps/call.py",
                 "        if len(exits_after_call) > 0:\n            return exits_after_call[0].target_vertex\n",
